@@ -71,7 +71,8 @@ static int del (void *p)
 /* what malloc returns is not zero and what free takes away does not keep its content: both are made deterministic
  * (0xA5 / 0xDD), so that a value read from uninitialised or released heap memory is wrong on every run and not only when
  * the allocator happens to recycle a dirty block (AddressSanitizer does the same for the asan variant) */
-void *__wrap_malloc (size_t n) { void *p = __real_malloc (n); if (p && n) memset (p, 0xA5, n); add (p, n); return p; }
+#define POISON_MAX ((size_t) 4 << 20)	/* huge blocks (parameter-limit tests allocate gigabytes they never touch): first 4 MiB only */
+void *__wrap_malloc (size_t n) { void *p = __real_malloc (n); if (p && n) memset (p, 0xA5, n < POISON_MAX ? n : POISON_MAX); add (p, n); return p; }
 void *__wrap_calloc (size_t a, size_t b) { void *p = __real_calloc (a, b); add (p, a * b); return p; }
 void *__wrap_realloc (void *o, size_t n)
 {
@@ -82,7 +83,7 @@ void *__wrap_realloc (void *o, size_t n)
 	if (e) osz = e->sz;
 	p = __real_realloc (o, n);
 	if (n == 0) { if (o) del (o); if (p) add (p, 0); return p; }
-	if (p) { if (o) del (o); if (n > osz) memset ((char *) p + osz, 0xA5, n - osz); add (p, n); }
+	if (p) { if (o) del (o); if (n > osz) memset ((char *) p + osz, 0xA5, n - osz < POISON_MAX ? n - osz : POISON_MAX); add (p, n); }
 	return p;
 }
 void __wrap_free (void *p)
@@ -90,7 +91,7 @@ void __wrap_free (void *p)
 	ent *e;
 	if (!p) return;
 	e = find (p);
-	if (e && e->sz) memset (p, 0xDD, e->sz);
+	if (e && e->sz) memset (p, 0xDD, e->sz < POISON_MAX ? e->sz : POISON_MAX);
 	if (!del (p)) { badfree++; return; }
 	__real_free (p);
 }
